@@ -208,6 +208,48 @@ example :
     (Message.deserialize wCanon).toOption = some { header := Header.new 0, body := .sync ⟨0, 0⟩, suffix := [] } := by
   decide +kernel
 
+/-- **Setters and constructor agree.**  On a well-formed timestamp `try_set_seconds` / `try_set_nanos` accept exactly
+    the values `Timestamp::new` accepts in that position, and whatever either route accepts is well-formed (so
+    `ser_then_parse` applies: no route builds a timestamp the 48-bit / 10^9 wire format cannot carry). -/
+theorem setter_constructor_agree (t : Timestamp) (ht : t.WF) (s n : Nat) :
+    ((t.trySetSeconds s).toOption.isSome ↔ (Timestamp.new s t.nanos).toOption.isSome) ∧
+    ((t.trySetNanos n).toOption.isSome ↔ (Timestamp.new t.seconds n).toOption.isSome) ∧
+    (∀ t', t.trySetSeconds s = .ok t' → t'.WF ∧ Timestamp.new s t.nanos = .ok t') ∧
+    (∀ t', t.trySetNanos n = .ok t' → t'.WF ∧ Timestamp.new t.seconds n = .ok t') := by
+  obtain ⟨h1, h2⟩ := ht
+  unfold Timestamp.trySetSeconds Timestamp.trySetNanos Timestamp.new Timestamp.WF
+  refine ⟨?_, ?_, ?_, ?_⟩
+  · by_cases h : s ≥ 2 ^ 48
+    · rw [if_pos h, if_pos (Or.inl h)]
+    · have : ¬ (s ≥ 2 ^ 48 ∨ t.nanos ≥ 1000000000) := by omega
+      rw [if_neg h, if_neg this]
+  · by_cases h : n ≥ 1000000000
+    · rw [if_pos h, if_pos (Or.inr h)]
+    · have : ¬ (t.seconds ≥ 2 ^ 48 ∨ n ≥ 1000000000) := by omega
+      rw [if_neg h, if_neg this]
+  · intro t' h
+    by_cases hs : s ≥ 2 ^ 48
+    · rw [if_pos hs] at h; cases h
+    · have : ¬ (s ≥ 2 ^ 48 ∨ t.nanos ≥ 1000000000) := by omega
+      rw [if_neg hs] at h
+      cases h
+      exact ⟨⟨by show s < 2 ^ 48; omega, h2⟩, by rw [if_neg this]⟩
+  · intro t' h
+    by_cases hn : n ≥ 1000000000
+    · rw [if_pos hn] at h; cases h
+    · have : ¬ (t.seconds ≥ 2 ^ 48 ∨ n ≥ 1000000000) := by omega
+      rw [if_neg hn] at h
+      cases h
+      exact ⟨⟨h1, by show n < 1000000000; omega⟩, by rw [if_neg this]⟩
+
+/-- boundaries: 2^48 - 1 / 999 999 999 accepted, 2^48 / 10^9 rejected, by both routes -/
+example : (Timestamp.new (2 ^ 48 - 1) 999999999).toOption.isSome = true ∧
+    ((⟨0, 0⟩ : Timestamp).trySetSeconds (2 ^ 48 - 1)).toOption.isSome = true ∧
+    ((⟨0, 0⟩ : Timestamp).trySetSeconds (2 ^ 48)).toOption.isSome = false ∧
+    (Timestamp.new (2 ^ 48) 0).toOption.isSome = false ∧
+    ((⟨0, 0⟩ : Timestamp).trySetNanos 999999999).toOption.isSome = true ∧
+    ((⟨0, 0⟩ : Timestamp).trySetNanos 1000000000).toOption.isSome = false := by decide
+
 /-! ### non-vacuity -/
 
 /-- an Announce with every flag set, a profile-specific accuracy and two TLVs, the last one EMPTY: meets the
@@ -245,6 +287,7 @@ end NtpVerif.C41
 #print axioms NtpVerif.C41.serialisable_lt_65536
 #print axioms NtpVerif.C41.oversize_refused
 #print axioms NtpVerif.C41.constructed_versions_roundtrip
+#print axioms NtpVerif.C41.setter_constructor_agree
 #print axioms NtpVerif.C41.parse_total
 #print axioms NtpVerif.C41.iterate_total
 #print axioms NtpVerif.C41.parse_then_ser_partial
